@@ -49,6 +49,8 @@ def run(ctx):
     units = [(src, [Cfg((str(a), str(b)), w, 300, False) for a in (0, 1, 2, 3) for b in (0, 1, 2, 5) for w in ws[:2]]) for src in DIRECTED]
     units += program_units(rng, 110 if q else 1500, ['arrays', 'strings', 'calls', 'globals', 'overloads', 'tt'], ws, cfgs_per=3, seed_base=ctx.seed + 800)
     units += C02.history_units(rng, 80 if q else 1000, ws, ctx.seed + 801, per=3)
+    import genhist
+    units += genhist.directed_units(ws[:2])
     st = sweeps.Stats()
     results = diffrun.run_units(units, watch_labels='yields')
     nviol = 0
